@@ -32,10 +32,10 @@ def gen_cases(tier, seed):
 class ScriptServer(object):
     """sends script items: ('send', bytes) / ('pause', seconds) / ('recv', nbytes) on each accepted connection"""
 
-    def __init__(self, script, conns=2):
-        self.ls = socket.socket()
+    def __init__(self, script, conns=2, host="127.0.0.1"):
+        self.ls = socket.socket(socket.AF_INET6 if ":" in host else socket.AF_INET)
         self.ls.setsockopt(socket.SOL_SOCKET, socket.SO_REUSEADDR, 1)
-        self.ls.bind(("127.0.0.1", 0))
+        self.ls.bind((host, 0))
         self.ls.listen(4)
         self.port = self.ls.getsockname()[1]
         self.script = script
@@ -98,6 +98,21 @@ class ScriptServer(object):
             self.ls.close()
 
 
+_IPV6 = []
+
+
+def ipv6_loopback():
+    if not _IPV6:
+        try:
+            s = socket.socket(socket.AF_INET6)
+            s.bind(("::1", 0))
+            s.close()
+            _IPV6.append(True)
+        except OSError:
+            _IPV6.append(False)
+    return _IPV6[0]
+
+
 def run_script(case, stats):
     rng = gen.rng_for("C18", case["seed"])
     timeout = case["timeout"]
@@ -143,7 +158,11 @@ def run_script(case, stats):
     else:
         items.append(("recv", sum(len(o) for o in outbound)))
     second = scen.blob(case["seed"] + "second", 500)
-    srv = ScriptServer([items, [("send", second)]])
+    host = "127.0.0.1"
+    if rng.random() < 0.25 and ipv6_loopback():
+        host = "::1"                  # an IPv6 literal as host
+        stats["ipv6_scripts"] = stats.get("ipv6_scripts", 0) + 1
+    srv = ScriptServer([items, [("send", second)]], host=host)
     srv.slow_reader = big_out
     stats["resets"] += 1 if rst else 0
     stats["big_outbound"] += 1 if big_out else 0
@@ -161,9 +180,14 @@ def run_script(case, stats):
 
     if case["impl"] == "sync":
         from adb_shell.transport.tcp_transport import TcpTransport
-        t = TcpTransport("127.0.0.1", srv.port)
+        t = TcpTransport(host, srv.port)
         with tcp_peer.SndbufPatch(8192 if big_out else None):
-            t.connect(connect_timeout)
+            try:
+                t.connect(connect_timeout)
+            except Exception as e:  # noqa
+                viol.append({"mechanism": "connect-raised:%s" % type(e).__name__, "detail": "sync TcpTransport(%r, port).connect(%r) to a listening peer raised %s: %s" % (host, connect_timeout, type(e).__name__, str(e)[:100])})
+                srv.ls.close()
+                return "script|%s|%r|%s" % (case["impl"], timeout, case["seed"]), viol, None
         i = 0
         dry = 0
         guard = time.monotonic() + 60
@@ -196,10 +220,13 @@ def run_script(case, stats):
         except OSError as e:
             if not rst and not viol:
                 viol.append({"mechanism": "write-raised:%s" % type(e).__name__, "detail": "sync bulk_write raised %s: %s" % (type(e).__name__, str(e)[:100])})
-        t.close()
-        t.close()          # idempotent
-        stats["double_closes"] += 1
-        t.connect(timeout)
+        try:
+            t.close()
+            t.close()          # idempotent
+            stats["double_closes"] += 1
+            t.connect(timeout)
+        except Exception as e:  # noqa
+            viol.append({"mechanism": "reconnect", "detail": "sync transport: close(), close(), connect() after %s raised %s: %s" % ("the peer reset the connection" if rst else "a clean session", type(e).__name__, str(e)[:100])})
         while len(second_got) < len(second) and time.monotonic() < guard:
             try:
                 d = t.bulk_read(100, timeout if timeout else 5.0)
@@ -220,7 +247,7 @@ def run_script(case, stats):
         from adb_shell.transport.tcp_transport_async import TcpTransportAsync
 
         async def go():
-            t = TcpTransportAsync("127.0.0.1", srv.port)
+            t = TcpTransportAsync(host, srv.port)
             await t.connect(connect_timeout)
             i = 0
             dry = [0]
@@ -256,13 +283,20 @@ def run_script(case, stats):
                 if not rst and not viol:
                     viol.append({"mechanism": "write-raised:%s" % type(e).__name__, "detail": "async bulk_write raised %s: %s" % (type(e).__name__, str(e)[:100])})
             await asyncio.sleep(0.02)
-            await t.close()
+            try:
+                await t.close()
+            except Exception as e:  # noqa
+                viol.append({"mechanism": "close-raised", "detail": "async close() after %s raised %s: %s" % ("the peer reset the connection" if rst else "a clean session", type(e).__name__, e)})
             try:
                 await t.close()
             except Exception as e:  # noqa
                 viol.append({"mechanism": "close-not-idempotent", "detail": "second close() raised %s: %s" % (type(e).__name__, e)})
             stats["double_closes"] += 1
-            await t.connect(timeout)
+            try:
+                await t.connect(timeout)
+            except Exception as e:  # noqa
+                viol.append({"mechanism": "reconnect", "detail": "async transport: connect() after close() (%s) raised %s: %s" % ("the peer had reset the connection" if rst else "clean session", type(e).__name__, str(e)[:100])})
+                return
             while len(second_got) < len(second) and time.monotonic() < guard:
                 try:
                     d = await t.bulk_read(100, timeout if timeout else 5.0)
